@@ -474,6 +474,7 @@ class Model:
                  "type": {0: "time-based", 1: "event-based", 2: "hybrid"}.get(mv(m, self.typ(c)), "hybrid"),
                  "in_step": mv(m, h0["in_step"][c]),
                  "begun": mv(m, h0["BGv"][c]) if mv(m, h0["BGd"][c]) is True else None,
+                 "NSS": mv(m, h0["NSSv"][c]) if mv(m, h0["NSSd"][c]) is True else None,
                  "fwt": mv(m, self.fwt(c))}
             for nm, dd, vv in (("TA", self.TAd, self.TAv), ("ID", self.IDd, self.IDv), ("SU", self.SUd, self.SUv),
                                ("SW", self.SWd, self.SWv)):
@@ -1444,15 +1445,20 @@ class Model:
                 kind = p.fresh("reply_kind", "int")
                 p.assume(z3.And(kind >= 0, kind <= 2))
                 if it.decide(kind == 0):
+                    p.ghost["step_reply_kind"] = "none"
                     return None
                 if it.decide(kind == 1):
                     r = p.fresh("next_step_reply", "int")
                     p.ghost["step_reply"] = r
+                    p.ghost["step_reply_kind"] = "int"
                     return r
+                p.ghost["step_reply_kind"] = "other"
                 return Opaque("non-int reply")
             if k == "ext_get_data":
                 term = p.fresh("data", self.Data)
-                return OutData(term, p.fresh("reply_has_time", "bool"), p.fresh("reply_time", "int"))
+                od = OutData(term, p.fresh("reply_has_time", "bool"), p.fresh("reply_time", "int"))
+                p.ghost["out_reply"] = od
+                return od
             return None
         if k in ("has_passed", "has_reached"):
             p.assume(self.coro_post(it, coro, h))
